@@ -42,17 +42,18 @@ func init() {
 }
 
 type c17Scenario struct {
-	Ctor      string            `json:"constructor"`
-	Method    string            `json:"generic_method,omitempty"`
-	Template  string            `json:"template"`
-	Params    map[string]string `json:"path_params"`
-	Header    map[string]string `json:"default_header,omitempty"`
-	BodyKind  string            `json:"body"` // none | obj
-	Fault     string            `json:"fault"`
-	Evals     int               `json:"evaluations"`
-	Via       string            `json:"via"` // Eval | Subscribe
-	TornAt    int               `json:"torn_at,omitempty"`
-	Neighbour bool              `json:"concurrent_json_neighbour,omitempty"`
+	Ctor        string            `json:"constructor"`
+	Method      string            `json:"generic_method,omitempty"`
+	Template    string            `json:"template"`
+	Params      map[string]string `json:"path_params"`
+	Header      map[string]string `json:"default_header,omitempty"`
+	EmptyHeader bool              `json:"default_header_empty_non_nil,omitempty"`
+	BodyKind    string            `json:"body"` // none | obj
+	Fault       string            `json:"fault"`
+	Evals       int               `json:"evaluations"`
+	Via         string            `json:"via"` // Eval | Subscribe
+	TornAt      int               `json:"torn_at,omitempty"`
+	Neighbour   bool              `json:"concurrent_json_neighbour,omitempty"`
 
 	h      *Hist
 	probes map[string]int
@@ -186,11 +187,15 @@ func genC17(t *simrt.Tape, tier string) Scenario {
 	if t.Bool(1, 4) {
 		sc.Params["unused"] = "zzz"
 	}
-	if t.Bool(1, 2) {
+	switch t.ChooseW([]int{3, 3, 1}) {
+	case 1:
 		sc.Header = map[string]string{"Auth": "token-1"}
 		if t.Bool(1, 2) {
 			sc.Header["X-Trace"] = "t"
 		}
+	case 2:
+		sc.Header = map[string]string{} // DefaultHeader is an empty, non-nil map
+		sc.EmptyHeader = true
 	}
 	sc.BodyKind = []string{"obj", "obj", "none"}[t.Choose(3)]
 	faults := []string{"none", "none", "none", "serializer", "transport", "torn", "empty", "malformed", "deserializer-nil", "missing-file", "read-error-after-body"}
@@ -486,6 +491,9 @@ func (sc *c17Scenario) checkRequest(rec c17Rec, serialized [][]byte, add func(cl
 		if rec.header.Get(k) != v {
 			add("header", "default-header-missing", fmt.Sprintf("request header %v lacks default header %s=%s", rec.header, k, v))
 		}
+	}
+	if n := len(rec.header.Values("Content-Type")); n > 1 {
+		add("header", "content-type-repeated", fmt.Sprintf("the request carries %d Content-Type values: %v", n, rec.header.Values("Content-Type")))
 	}
 	ct := rec.header.Get("Content-Type")
 	switch {
